@@ -3,6 +3,8 @@ package sim
 import (
 	"fmt"
 	"math/rand/v2"
+
+	"k8s.io/apimachinery/pkg/types"
 )
 
 type histOpts struct {
@@ -175,4 +177,87 @@ func init() {
 	register(histProfile("C13", []string{"C13"}, 1500, 60000, histOpts{maxNodes: 4, pCanary: 0.5, fancy: []float64{0.3, 0.7}, faults: true}, "C13.create", "C13.delete", "C13.podtemplate"))
 	register(histProfile("C14", []string{"C14"}, 1500, 60000, histOpts{maxNodes: 6, pCanary: 0.5, fancy: []float64{0, 0.3}, faults: true}, "C14.eds", "C14.ers"))
 	register(histProfile("C02", []string{"C02"}, 800, 40000, histOpts{maxNodes: 6, pCanary: 0.5, fancy: []float64{0, 0.3, 0.7}, faults: true, sane: true, c02: true}, "C02.converged"))
+}
+
+// ---------------------------------------------------------------------------------------
+// C07: histories that end in a failed canary, faults targeted at the two writes of the
+// rollback, then fair fault-free reconciles.
+
+func genC07(r *rand.Rand, tier string, idx int) *World {
+	o := histOpts{maxNodes: 5, pCanary: 1, fancy: []float64{0, 0.3}, faults: idx%4 != 0, c02: true}
+	if tier == "thorough" {
+		o.maxNodes = 10
+	}
+	w := genHistory(r, tier, o)
+	w.Extra["c02prop"] = "C07"
+	w.Extra["failHow"] = pick(r, "cli", "cli", "storm", "cli-paused")
+	w.Cfg.EndCanary = "fail"
+	w.Cfg.ChaosSteps = pick(r, 20, 40, 80)
+	w.Cfg.TargetRollback = idx%4 != 0
+	w.Cfg.CLI = false
+	w.Cfg.TemplateEdits = false
+	w.Extra["failSteps"] = pick(r, "20", "40", "80")
+	c := w.EDS[0].Strategy.Canary
+	if c.Duration != "" {
+		c.Duration = pick(r, "1m", "10m", "10m", "30m")
+	}
+	c.AutoFailEnabled = bptr(true)
+	c.AutoFailMaxRestarts = i32(pick(r, int32(2), 3))
+	if c.AutoPauseMaxRestarts != nil && *c.AutoPauseMaxRestarts > *c.AutoFailMaxRestarts {
+		c.AutoPauseMaxRestarts = i32(1)
+	}
+	return w
+}
+
+func bodyC07(s *Sim) {
+	s.Setup()
+	def := s.W.EDS[0]
+	key := types.NamespacedName{Namespace: def.NS, Name: def.Name}
+	// deploy A everywhere, then start the canary of B
+	s.bootstrap(def)
+	for i := 0; i < 3+len(s.W.Nodes); i++ {
+		s.Round(s.rngEnv)
+	}
+	s.userSetTemplate(def.NS, def.Name, "B")
+	s.RunTask(CtrlEDS, key)
+	s.RunTask(CtrlEDS, key)
+	s.Chaos()
+	// make the canary fail
+	e := s.Store.GetEDS(def.NS, def.Name)
+	if e == nil || e.Status.Canary == nil {
+		s.Probe("c07.no-canary-at-fail-time")
+	} else {
+		s.Stats.NonVacuous["C07.failed-canary"]++
+		switch s.W.Extra["failHow"] {
+		case "cli-paused":
+			s.RunCLI("canary-pause", key)
+			s.RunCLI("canary-fail", key)
+		case "storm":
+			for _, p := range s.Store.Pods() {
+				if letterOfPod(p) == "B" && p.DeletionTimestamp == nil {
+					s.kSettle(p)
+					pp := s.Store.GetPod(p.Namespace, p.Name)
+					for i := 0; i < 5 && pp != nil && len(pp.Status.ContainerStatuses) > 0; i++ {
+						s.kRestart(pp, "Error")
+						pp = s.Store.GetPod(p.Namespace, p.Name)
+					}
+				}
+			}
+		default:
+			s.RunCLI("canary-fail", key)
+		}
+	}
+	// targeted-fault phase: only reconciles, kubelet and clock
+	steps := 40
+	fmt.Sscan(s.W.Extra["failSteps"], &steps)
+	s.W.Cfg.ChaosSteps = steps
+	s.W.Cfg.NodeChurn, s.W.Cfg.AnnotationEdits, s.W.Cfg.KubeletFaults = false, false, false
+	s.Chaos()
+	s.Quiesce()
+}
+
+func init() {
+	register(&Profile{Name: "C07", Decide: []string{"C07"}, Quick: 1500, Thorough: 80000, Gen: genC07, Body: bodyC07,
+		NonVacuous: []string{"C07.rollback", "C07.failed-canary", "C07.retention"}, Chunk: 50,
+		Rule: "Histories that end in a Canary-Failed replica set (kubectl-eds canary fail, with or without a preceding pause, or a kubelet restart storm; before or after the duration elapsed), followed by a phase in which API faults and crashes are biased onto the ExtendedDaemonSet reconciler's status write and the following spec write (reject, lost reply, crash before, crash after), then fair fault-free reconcile rounds. " + histRule})
 }
